@@ -97,7 +97,17 @@ pub fn judge(op: Op, a: [f64; 2], b: [f64; 2]) -> (Verdict, Res) {
     }
 }
 
+pub fn hist_judge(c: &crate::hist::HCall, _l: Option<&mut Local>) -> Verdict {
+    match c.as_op() {
+        Some(op) => judge(op, c.a, c.b).0,
+        None => Verdict::Skip,
+    }
+}
+
 pub fn replay(call: &str, _clause: &str, args: &[u64]) -> Verdict {
+    if call == "hist" {
+        return crate::hist::replay(args, &hist_judge);
+    }
     if let Some(rest) = call.strip_prefix("from_") {
         if rest != "f64" {
             return judge_from_int(rest, (args[0] as u128) | ((args[1] as u128) << 64));
@@ -679,4 +689,20 @@ pub fn run(r: &mut Runner) {
     }
     r.states += sd.len() as u64;
     r.notes.push(format!("BFS levels: {}", serde_json::to_string(&levels).unwrap()));
+    {
+        // histories: every unary entry point on a value, its variants and one unrelated value, in all orders (length <= 3);
+        // binary entry points on operand pairs in both orders
+        let un: Vec<Op> = Op::ALL.iter().cloned().filter(|o| o.arity() == 1 && *o != Op::from_f64 && *o != Op::sin_cos).collect();
+        let mut groups: Vec<Vec<crate::hist::HCall>> = vec![];
+        for &op in &un {
+            for (x, other) in [([1.001, 0.0], [1e10, 0.0]), ([0.75, 1e-17], [-2.5, 1e-16])] {
+                groups.extend(crate::hist::unary_groups(&[op], &[x], other));
+            }
+        }
+        let bin: Vec<Op> = vec![Op::add, Op::sub, Op::mul, Op::div, Op::rem, Op::powf, Op::atan2, Op::hypot, Op::div_assign, Op::sub_assign];
+        for &op in &bin {
+            groups.extend(crate::hist::binary_groups(&[op], &[([1.5, 1e-17], [1.25, -3e-18])]));
+        }
+        crate::hist::explore(r, "histories: every unary entry point and ten binary ones", &groups, 3, &hist_judge, 1u64 << 57);
+    }
 }
